@@ -134,6 +134,15 @@ def plan_jobs(prop, tier, rnd):
             mixed = [h for h in pools.get("Y", []) if both_terms(h)]
             if mixed:
                 assets["B1"] = rnd.choice(mixed)
+        if prop == "C20" and "T" in pools and i % 5 == 1:
+            # a donation followed in the same year by a fee-bearing transfer or another disposal: every row keeps its own sold-yen cell
+            def donate_then(h):
+                o = sorted(h, key=lambda y: y["t"])
+                ks = [k for k, x in enumerate(o) if x["cls"] == "out" and x["type"] == "donate"]
+                return any((x["cls"] == "intra" and x["fee"] > 0) or (x["cls"] == "out" and x["type"] != "donate") for k in ks for x in o[k + 1:])
+            want = [h for h in pools["T"] if donate_then(h)]
+            if want:
+                assets["B1"] = rnd.choice(want)
         if prop == "C14" and "T" in pools:
             # every transaction type in every table that takes it, in turn (covering all 14 types does not depend on the seed)
             out_ty = ["sell", "gift", "donate", "fee", "lost", "staking"][i % 6]
